@@ -360,5 +360,7 @@ _targets_without_line_parsers = targets
 
 
 def targets():      # noqa: F811
-    from . import lineparsers
-    return _targets_without_line_parsers() + lineparsers.targets()
+    # shared with C05: the table `parse` prints (DataSet.to_dataframe) holds f / Re Z / Im Z of the requested subset under headers
+    # that column detection recognises -- so the printed table is itself a parseable file
+    from . import lineparsers, c05
+    return _targets_without_line_parsers() + lineparsers.targets() + [c05.target_to_dataframe()]
